@@ -13,6 +13,7 @@
 import Kingdon.Lemmas.Naturality
 import Kingdon.Lemmas.MiscLemmas
 import Kingdon.Lemmas.OpDictLemmas
+import Kingdon.Lemmas.GradedComplete
 namespace Kingdon.C13
 open Finsupp
 variable {α β : Type} [CommRing α] [CommRing β]
@@ -38,5 +39,23 @@ theorem linear_operators_keep_keys_partial {γ : Type} [Neg γ] [Add γ] [Sub γ
     (add x y).map (·.1) = x.map (·.1) ∧ (sub x y).map (·.1) = x.map (·.1) ∧
     (hodgeGen c u x).map (·.1) = x.map (fun kv => c.pss - kv.1) :=
   ⟨keys_neg x, keys_involutions gs x, keys_add_same x y h hn, keys_sub_same x y h hn, keys_hodge c u x⟩
+
+/-- graded mode, geometric product, NON-DEGENERATE metric: if both operands store complete grades (for each stored blade,
+    every blade of the same grade), so does their product — so the result can be fed to the next operator of a graded
+    algebra.  (In degenerate metrics this fails: known findings F7a/F7b.) -/
+theorem graded_product_keeps_grades_complete {γ : Type} [Add γ] [Mul γ] [Neg γ] (c : Cfg) (h : c.admissible = true)
+    (hnd : ∀ s ∈ c.signature, s ≠ 0) (x y : MV γ)
+    (hxr : ∀ k ∈ keysOf x, k < 2 ^ c.d) (hyr : ∀ k ∈ keysOf y, k < 2 ^ c.d)
+    (hx : ∀ k ∈ keysOf x, ∀ k', k' < 2 ^ c.d → popcount k' = popcount k → k' ∈ keysOf x)
+    (hy : ∀ k ∈ keysOf y, ∀ k', k' < 2 ^ c.d → popcount k' = popcount k → k' ∈ keysOf y)
+    (K K' : Nat) (hK : K ∈ keysOf (gp c x y)) (hK' : K' < 2 ^ c.d) (hpop : popcount K' = popcount K) :
+    K' ∈ keysOf (gp c x y) :=
+  gp_keeps_grades_complete c (Cfg.adm_of_admissible c h) hnd x y hxr hyr hx hy K K' hK hK' hpop
+
+/-- the combinatorial reason: every blade of a grade that occurs in a product of grades r and s is such a product -/
+theorem grade_orbit_complete (d r s : Nat) (K K' : Nat) (hK : K < 2 ^ d) (hK' : K' < 2 ^ d) (hpop : popcount K' = popcount K)
+    (hex : ∃ I J, I < 2 ^ d ∧ J < 2 ^ d ∧ popcount I = r ∧ popcount J = s ∧ I ^^^ J = K) :
+    ∃ I' J', I' < 2 ^ d ∧ J' < 2 ^ d ∧ popcount I' = r ∧ popcount J' = s ∧ I' ^^^ J' = K' :=
+  grade_orbit d r s K K' hK hK' hpop hex
 
 end Kingdon.C13
